@@ -58,7 +58,14 @@ enum ConnType {
     Tls(TlsStream<TcpStream>),
     #[cfg(unix)]
     Unix(UnixStream),
+    #[cfg(ldap3_verif)]
+    Verif(Box<dyn VerifIo>),
 }
+
+#[cfg(ldap3_verif)]
+pub trait VerifIo: AsyncRead + AsyncWrite + Unpin + Send + std::fmt::Debug {}
+#[cfg(ldap3_verif)]
+impl<T: AsyncRead + AsyncWrite + Unpin + Send + std::fmt::Debug> VerifIo for T {}
 
 #[cfg(feature = "tls-rustls")]
 #[derive(Debug)]
@@ -157,6 +164,8 @@ impl AsyncRead for ConnType {
             ConnType::Tls(tls) => Pin::new(tls).poll_read(cx, buf),
             #[cfg(unix)]
             ConnType::Unix(us) => Pin::new(us).poll_read(cx, buf),
+            #[cfg(ldap3_verif)]
+            ConnType::Verif(v) => Pin::new(v).poll_read(cx, buf),
         }
     }
 }
@@ -169,6 +178,8 @@ impl AsyncWrite for ConnType {
             ConnType::Tls(tls) => Pin::new(tls).poll_write(cx, buf),
             #[cfg(unix)]
             ConnType::Unix(us) => Pin::new(us).poll_write(cx, buf),
+            #[cfg(ldap3_verif)]
+            ConnType::Verif(v) => Pin::new(v).poll_write(cx, buf),
         }
     }
 
@@ -179,6 +190,8 @@ impl AsyncWrite for ConnType {
             ConnType::Tls(tls) => Pin::new(tls).poll_flush(cx),
             #[cfg(unix)]
             ConnType::Unix(us) => Pin::new(us).poll_flush(cx),
+            #[cfg(ldap3_verif)]
+            ConnType::Verif(v) => Pin::new(v).poll_flush(cx),
         }
     }
 
@@ -189,6 +202,8 @@ impl AsyncWrite for ConnType {
             ConnType::Tls(tls) => Pin::new(tls).poll_shutdown(cx),
             #[cfg(unix)]
             ConnType::Unix(us) => Pin::new(us).poll_shutdown(cx),
+            #[cfg(ldap3_verif)]
+            ConnType::Verif(v) => Pin::new(v).poll_shutdown(cx),
         }
     }
 }
@@ -368,6 +383,8 @@ pub struct LdapConnAsync {
     id_scrub_rx: mpsc::UnboundedReceiver<RequestId>,
     misc_rx: mpsc::UnboundedReceiver<MiscSender>,
     stream: Framed<ConnType, LdapCodec>,
+    #[cfg(ldap3_verif)]
+    verif_gauges: Arc<Mutex<(Vec<i32>, Vec<i32>)>>,
 }
 
 /// Drive the connection until its completion. __*__
@@ -662,6 +679,18 @@ impl LdapConnAsync {
         }
     }
 
+    #[cfg(ldap3_verif)]
+    pub fn verif_new(io: Box<dyn VerifIo>) -> (Self, Ldap) {
+        Self::conn_pair(ConnType::Verif(io))
+    }
+
+    /// Sorted keys of the result and search routing maps, as of the start of the
+    /// driver's latest loop turn.
+    #[cfg(ldap3_verif)]
+    pub fn verif_gauges(&self) -> Arc<Mutex<(Vec<i32>, Vec<i32>)>> {
+        self.verif_gauges.clone()
+    }
+
     fn conn_pair(ctype: ConnType) -> (Self, Ldap) {
         #[cfg(feature = "gssapi")]
         let client_ctx = Arc::new(Mutex::new(None));
@@ -686,6 +715,8 @@ impl LdapConnAsync {
             id_scrub_rx,
             misc_rx,
             stream: codec.framed(ctype),
+            #[cfg(ldap3_verif)]
+            verif_gauges: Arc::new(Mutex::new((vec![], vec![]))),
         };
         let ldap = Ldap {
             msgmap: conn.msgmap.clone(),
@@ -757,6 +788,14 @@ impl LdapConnAsync {
 
     async fn turn(mut self, mode: LoopMode) -> Result<Self> {
         loop {
+            #[cfg(ldap3_verif)]
+            {
+                let mut g = self.verif_gauges.lock().expect("verif gauges");
+                g.0 = self.resultmap.keys().copied().collect();
+                g.0.sort();
+                g.1 = self.searchmap.keys().copied().collect();
+                g.1.sort();
+            }
             tokio::select! {
                 req_id = self.id_scrub_rx.recv() => {
                     if let Some(req_id) = req_id {
